@@ -1,8 +1,9 @@
 (* Property C18 — owning wrappers destroy exactly once and copy deeply.
    Only statements here; every proof is `exact <lemma>` into Own/QuaintProofs.v and Own/OptionalProofs.v.
    quaint_ptr part: q_init n = a pool of n pointer variables (none constructed yet) and an empty std::vector<quaint_ptr>;
-   q_run st ops = the state after ANY list of operations (create / move-construct / move-assign / reset / destroy /
-   push into the vector / reallocate / clear / move out of the vector), inapplicable ones being no-ops.
+   q_run st ops = the state after ANY list of operations (create / default-construct / move-construct / move-assign / reset /
+   assign nullptr (also to a vector element) / std::swap / destroy / push into the vector / reallocate / pop_back / clear /
+   move out of the vector), inapplicable ones being no-ops.
    optional part: o_init n = n empty optionals; o_run = any list of value/copy/empty assignments, constructions, reads. *)
 From Coq Require Import List Arith Bool.
 From Coq Require Import Init.Byte.
@@ -60,6 +61,20 @@ Theorem C18_moved_from_and_reset_empty : forall st o j,
   q_applicable st o = true -> must_be_empty o = Some j -> slot_is_null (q_step st o) j = true.
 Proof. exact moved_from_and_reset_empty. Qed.
 Print Assumptions C18_moved_from_and_reset_empty.
+
+(* a vector element that was moved out of, or assigned nullptr, is empty afterwards *)
+Theorem C18_vec_element_emptied : forall st o k,
+  q_applicable st o = true -> vec_must_be_null o = Some k -> vec_is_null (q_step st o) k = true.
+Proof. exact vec_element_emptied. Qed.
+Print Assumptions C18_vec_element_emptied.
+
+(* std::swap exchanges what two pointers own and destroys nothing *)
+Theorem C18_swap_exchanges : forall st i j pi pj,
+  is_live (nth_error (pool st) i) = Some pi -> is_live (nth_error (pool st) j) = Some pj ->
+  heap (q_step st (Swap i j)) = heap st /\
+  (i <> j -> nth_error (pool (q_step st (Swap i j))) i = Some (Live pj) /\ nth_error (pool (q_step st (Swap i j))) j = Some (Live pi)).
+Proof. exact swap_exchanges. Qed.
+Print Assumptions C18_swap_exchanges.
 
 (* ... and the target owns what the source owned *)
 Theorem C18_move_transfers : forall st i j p,
@@ -181,6 +196,10 @@ Example C18_ex_mid : let st := q_run (q_init 3) (firstn 4 h1) in
   (pool st, vec st, map alive (heap st)) = ([Live None; Live None; Gone], [Some (1, 1)], [false; true]).
 Proof. reflexivity. Qed.
 Example C18_ex_finish : map destroyed_by (heap (q_finish (q_run (q_init 3) [Make 0 0; Make 1 1; VecPush 1; Make 1 2]))) = [[0]; [1]; [2]].
+Proof. reflexivity. Qed.
+(* p = nullptr destroys the pointee exactly once, by its own type, also for a vector element *)
+Example C18_ex_assign_null : let st := q_run (q_init 2) [Make 0 1; AssignNull 0; Make 1 2; VecPush 1; VecAssignNull 0] in
+  (map destroyed_by (heap st), pool st, vec st) = ([[1]; [2]], [Live None; Live None], [None]).
 Proof. reflexivity. Qed.
 Example C18_ex_optional : views (o_run (o_init 3) [OValAssign 0 (B "ab"); OAssign 1 0; OAssignEmpty 0; OCopyCtor 2 1; OAssign 1 0])
   = [VEmpty; VEmpty; VVal (B "ab")].
